@@ -14,6 +14,7 @@ import NV.C16.ProofRoundtrip
 import NV.C16.ProofObject
 import NV.C16.Tree
 import NV.C16.ProofTree
+import NV.C16.ProofHash
 
 namespace NV.C16.Props
 
@@ -277,5 +278,26 @@ theorem tmpName_eq (file : List Nat) : tmpName file = file.take NV.Gen.C16.tmpPr
 paths share a temporary cannot clobber a save file with it -/
 theorem tmpName_never_a_save_file (file g : List Nat) (hg : g.getLast? = some NV.Gen.C16.saveExt1) :
     tmpName file ≠ g := NV.C16.tmpName_never_a_save_file file g hg
+
+/-! ## the hash table restore_mapping fills (Hash.lean): every restored pair can be looked up -/
+
+/-- **One pair of restore_mapping** (bucket `hash & mask`, duplicate test in the chain, `--unfilled`, growMap in the
+middle, re-derived bucket `if (oi & ++mask) elt2 = a[i |= mask]`): the table stays well-formed (a power of two of
+buckets, every node in the bucket its hash selects), the inserted key is found by node_find_in_mapping, no other key
+is lost — for EVERY hash function (string keys hash by address) and table size. -/
+theorem mapping_insert_spec {κ : Type} [DecidableEq κ] (h : κ → Nat) (t t' : Hash.Tbl κ) (k : κ)
+    (hw : Hash.WF h t) (hi : Hash.insert h t k = some t') :
+    Hash.WF h t' ∧ Hash.find h t' k = true ∧ ∀ k', Hash.find h t k' = true → Hash.find h t' k' = true :=
+  Hash.insert_spec h t t' k hw hi
+
+/-- **Every pair of a restored mapping is found through its key** (`m[key]`), whatever the keys, their order, their
+hashes, the initial table size and however often the table grows during the restore. -/
+theorem restore_mapping_all_found {κ : Type} [DecidableEq κ] (h : κ → Nat) (e : Nat) (ks : List κ) (t : Hash.Tbl κ)
+    (hi : Hash.insertAll h (Hash.empty e) ks = some t) : ∀ k ∈ ks, Hash.find h t k = true :=
+  Hash.restore_mapping_all_found h e ks t hi
+
+/-- the statements of restore_mapping / growMap / node_find_in_mapping that Hash.lean mirrors still read that way
+(REGENERATED from the source text on every run) -/
+theorem hash_sites_as_modelled : NV.Gen.C16.hashSitesAsModelled = true := by decide
 
 end NV.C16.Props
